@@ -26,6 +26,9 @@ def _pair(c):
     _call(o, "es_sw", ES.event_synchronization, y, x, ts1=tsa, ts2=tsa, taumax=tm, lag=lag)
     tss = ts + c["shift"] / den
     _call(o, "es_shift", ES.event_synchronization, x, y, ts1=tss, ts2=tss, taumax=tm, lag=lag)
+    # translation by 2^25 time units (dates as day / second counts): exact in double precision
+    tsb = ts + 2.0**25
+    _call(o, "es_bigshift", ES.event_synchronization, x, y, ts1=tsb, ts2=tsb, taumax=tm, lag=lag)
     if c["tm"] == enc.INF:
         tsc = ts * c["scale"]
         _call(o, "es_scale", ES.event_synchronization, x, y, ts1=tsc, ts2=tsc, taumax=tm,
@@ -34,6 +37,7 @@ def _pair(c):
         _call(o, "eca", ES.event_coincidence_analysis, x, y, tm, ts1=tsa, ts2=tsa, lag=lag)
         _call(o, "eca_sw", ES.event_coincidence_analysis, y, x, tm, ts1=tsa, ts2=tsa, lag=lag)
         _call(o, "eca_shift", ES.event_coincidence_analysis, x, y, tm, ts1=tss, ts2=tss, lag=lag)
+        _call(o, "eca_bigshift", ES.event_coincidence_analysis, x, y, tm, ts1=tsb, ts2=tsb, lag=lag)
     for k in ("es", "es_sw", "es_shift"):
         if o[k + "_exc"]:
             o["es_exc"] = o[k + "_exc"]
@@ -92,8 +96,8 @@ def _thr(c):
     o = {"exc": "", "ev": []}
     try:
         ev = ES.make_event_matrix(data, threshold_method=[c["method"], "value"],
-                                  threshold_values=[float(val), 2.0],
-                                  threshold_types=[c["type"], "above"])
+                                  threshold_values=None if c.get("dv") else [float(val), 2.0],
+                                  threshold_types=None if c.get("dt") else [c["type"], "above"])
         o["ev"] = enc.ints(ev[:, 0])
     except Exception as ex:
         o["exc"] = type(ex).__name__
